@@ -1,5 +1,6 @@
 import FFSM2.Lemmas.Reach
 import FFSM2.Props.C17
+import FFSM2.Lemmas.BlindWorld
 /-!
 # Run-level theorems: the per-call theorems lifted to every history
 
@@ -14,6 +15,8 @@ behaviour `beh`.  The theorems here quantify over all of that.
 * `C10_history_capacity` — in every reachable state the plan is within the configured capacity and every
   task names real states.
 * `C17_history_independent` — a call on one instance never changes, nor emits an event of, another.
+* `C16_history_noninterference` — the whole history with every logger omitted runs the same callbacks, in
+  the same order, with the same observations, actions, API results and final states.
 -/
 namespace FFSM2
 open Step
@@ -342,6 +345,27 @@ theorem C17_history_independent (cfg : Cfg) (beh : Beh) (w : World) (k : Nat) (o
   simp only [beq_iff_eq]
   rw [hev e he]
   exact fun e' => hj e'.symm
+
+/-- **C16 over whole histories — logging never perturbs the machine.**  Take any history and the same
+    history in which no logger is ever attached (`construct … false`, every `attachLogger` turned into a
+    detach).  With the log records erased the two traces are identical — the same callbacks are delivered in
+    the same order with the same observations, user code performs the same actions, every API call returns
+    the same observation — and the final worlds are equal up to the `logger` flag itself. -/
+theorem C16_history_noninterference (cfg : Cfg) (beh : Beh) (ops : List Op) :
+    nolog (run cfg beh (ops.map Op.quiet)).2 = nolog (run cfg beh ops).2 ∧
+    (run cfg beh (ops.map Op.quiet)).1 = stripW (run cfg beh ops).1 := by
+  obtain ⟨h1, h2⟩ := runFrom_strip cfg beh ops [] 0
+  exact ⟨h2, h1⟩
+
+/-- … in particular a logger attached or detached *midway* changes nothing from then on either: two
+    histories that differ only in their logger flags agree up to log records -/
+theorem C16_history_logger_flags_irrelevant (cfg : Cfg) (beh : Beh) (ops ops' : List Op)
+    (h : ops.map Op.quiet = ops'.map Op.quiet) :
+    nolog (run cfg beh ops).2 = nolog (run cfg beh ops').2 ∧ stripW (run cfg beh ops).1 = stripW (run cfg beh ops').1 := by
+  obtain ⟨a1, a2⟩ := C16_history_noninterference cfg beh ops
+  obtain ⟨b1, b2⟩ := C16_history_noninterference cfg beh ops'
+  rw [h] at a1 a2
+  exact ⟨a1.symm.trans b1, a2.symm.trans b2⟩
 
 /-- non-vacuity: two instances interleaved, a copy, a vetoed request; instance 0's path is paired and the
     hypotheses of `C01_history` hold for it -/
